@@ -326,6 +326,9 @@ def check(case: dict) -> dict:
         else:
             classes.append('eor')
             nontrivial = nontrivial or ref['eor'] != (1, 1)
+    if case.get('motif'):
+        classes.append('motif:' + case['motif'])
+        nontrivial = True
     return {'nontrivial': nontrivial, 'classes': sorted(set(classes))}
 
 
@@ -347,7 +350,87 @@ def cases(draw):
             ups.append({'eor': list(draw(st.sampled_from(session['families'])))})
         else:
             ups.append(draw(ws.updates(session)))
-    return {'session': session, 'updates': ups}
+    case = {'session': session, 'updates': ups}
+    if draw(st.integers(0, 2)) == 0:
+        motif = draw(_follow_ups(ups))
+        if motif:
+            case['updates'] = ups + motif[1]
+            case['motif'] = motif[0]
+    return case
+
+
+def _announce_of(update: dict):
+    """(family, first announced entry, where it sits) of an UPDATE description, or None"""
+    if 'eor' in update:
+        return None
+    for a in update.get('attrs', []):
+        if a['code'] == 14 and isinstance(a.get('v'), dict) and a['v'].get('entries'):
+            return (a['v']['afi'], a['v']['safi']), a['v']['entries'][0], 'mp'
+    if update.get('nlri'):
+        return (1, 1), update['nlri'][0], 'v4'
+    return None
+
+
+def _with_entries(update: dict, where: str, announce: list, withdraw: list) -> dict:
+    import copy
+
+    u = copy.deepcopy(update)
+    u.setdefault('order', 'sorted')
+    if where == 'v4':
+        u['nlri'], u['withdrawn'] = announce, withdraw
+        u['attrs'] = [a for a in u['attrs'] if a['code'] not in (14, 15)]
+        if not announce:
+            u['attrs'] = []
+        return u
+    u['nlri'], u['withdrawn'] = [], []
+    reach = next(a for a in u['attrs'] if a['code'] == 14)
+    fam = (reach['v']['afi'], reach['v']['safi'])
+    u['attrs'] = [a for a in u['attrs'] if a['code'] != 15]
+    if announce:
+        reach['v']['entries'] = announce
+    else:
+        u['attrs'] = []
+    if withdraw:
+        u['attrs'].append({'code': 15, 'flags': 0x80, 'v': {'afi': fam[0], 'safi': fam[1], 'entries': withdraw}})
+    return u
+
+
+@st.composite
+def _follow_ups(draw, ups: list):
+    """UPDATEs which meet an earlier one in the Adj-RIB-In: the same route again with another label, a prefix with the same octets and
+    another length (10.0.0.0/24 then 10.0.0.0/23, same route distinguisher and path id), and withdrawals of one of the two"""
+    import ipaddress
+
+    sources = [(u, _announce_of(u)) for u in ups]
+    sources = [(u, a) for u, a in sources if a is not None]
+    if not sources:
+        return None
+    u, (fam, e, where) = draw(st.sampled_from(sources))
+    net = ipaddress.ip_network(e['prefix'])
+    bits, top = net.prefixlen, net.max_prefixlen
+    kind = draw(st.sampled_from(['sibling-length', 'sibling-length', 'label-only'] if 'labels' in e else ['sibling-length']))
+    if kind == 'label-only':
+        again = dict(e, labels=[draw(st.sampled_from([18, 19, 2000, 1048574]))])
+        out = [_with_entries(u, where, [again], [])]
+        if draw(st.booleans()):
+            out.append(_with_entries(u, where, [], [dict(e)]))
+        return 'same-route-another-label', out
+    if bits == 0:
+        return None
+    low = ((bits - 1) // 8) * 8 + 1
+    other = draw(st.sampled_from([b for b in range(low, min(low + 8, top + 1)) if b != bits]))
+    base = ipaddress.ip_network(f'{net.network_address}/{min(bits, other)}', strict=False).network_address
+    first, second = dict(e, prefix=f'{base}/{bits}'), dict(e, prefix=f'{base}/{other}')
+    if 'labels' in e and draw(st.booleans()):
+        second['labels'] = [draw(st.sampled_from([18, 19, 2000]))]
+    out = [_with_entries(u, where, [first], []), _with_entries(u, where, [second], [])]
+    tail = draw(st.sampled_from(['none', 'withdraw-first', 'withdraw-second', 'withdraw-first-then-announce-first']))
+    if tail != 'none':
+        gone = first if 'first' in tail.split('-then-')[0] else second
+        out.append(_with_entries(u, where, [], [dict(gone)]))
+    if tail.endswith('announce-first'):
+        out.append(_with_entries(u, where, [first], []))
+    return 'same-octets-another-prefix-length', out
 
 
 ENGINES = [Engine('updates', cases, check, quick=1000, thorough=12000, batch=250)]
